@@ -259,6 +259,73 @@ func (g treeGen) tree() map[string]any {
 	return t
 }
 
+// attrDoc: one spelling of depends_on / networks / build, with its kind (for the distribution)
+func (g treeGen) attrDoc(attr string) (string, any) {
+	r := g.ctx.Rng
+	names := []string{"b", "c", "base", "x-y", "n.1"}
+	r.Shuffle(len(names), func(i, j int) { names[i], names[j] = names[j], names[i] })
+	names = names[:1+r.Intn(3)]
+	list := func() []any {
+		l := []any{}
+		for _, n := range names {
+			l = append(l, n)
+		}
+		return l
+	}
+	switch r.Intn(8) {
+	case 0:
+		return "null", nil
+	case 1:
+		return "malformed", g.pick(1, true, "str", 1.5, []any{"b", 1}, []any{nil}, map[string]any{"b": 1}, []any{[]any{"b"}})
+	}
+	switch attr {
+	case "depends_on":
+		switch r.Intn(4) {
+		case 0:
+			return "short", list()
+		case 1:
+			return "short-dup", append(list(), names[0])
+		case 2:
+			m := map[string]any{}
+			for _, n := range names {
+				m[n] = map[string]any{"condition": "service_started", "required": true}
+			}
+			return "long", m
+		}
+		m := map[string]any{}
+		for _, n := range names {
+			m[n] = g.pick(map[string]any{"condition": "service_healthy"}, map[string]any{"required": false}, map[string]any{}, map[string]any{"condition": "service_healthy", "restart": true, "required": true})
+		}
+		return "long-partial", m
+	case "networks":
+		switch r.Intn(4) {
+		case 0:
+			return "short", list()
+		case 1:
+			return "short-dup", append(list(), names[0])
+		case 2:
+			m := map[string]any{}
+			for _, n := range names {
+				m[n] = nil
+			}
+			return "long", m
+		}
+		m := map[string]any{}
+		for _, n := range names {
+			m[n] = g.pick(nil, map[string]any{"aliases": []any{"a1"}}, map[string]any{"priority": 3}, map[string]any{})
+		}
+		return "long-partial", m
+	}
+	switch r.Intn(3) {
+	case 0:
+		return "short", g.pick(".", "./ctx", "")
+	case 1:
+		return "long", map[string]any{"context": g.pick(".", "./ctx")}
+	}
+	return "long-more", g.pick(map[string]any{"dockerfile": "D"}, map[string]any{"context": ".", "args": g.pick([]any{"A=1"}, map[string]any{"A": "2", "B": nil})},
+		map[string]any{"context": "x", "ssh": g.pick([]any{"default"}, map[string]any{"k": "/p"})}, map[string]any{"secrets": []any{"s1"}, "labels": []any{"l=1"}}, map[string]any{})
+}
+
 // paths of all nodes of a tree (for the malformed stream: one node is replaced by a value of a random kind)
 func nodePaths(v any, cur []any, out *[][]any) {
 	*out = append(*out, append([]any(nil), cur...))
@@ -461,6 +528,149 @@ func (g pairGen) emit(attr string, short, long map[string]any) {
 	}
 	g.ctx.Count("pair:" + attr)
 	g.ctx.Add("c03.shortLong", pairArgs{Attr: attr, Short: short, Long: long, Files: envFiles})
+	// the same pair with a second document that refines / extends the attribute in place (override.Merge works on the
+	// canonical tree of the first document): short ≡ long must survive the merge, in either order, as a second file or
+	// as a second YAML document of the same file
+	if !g.xkeys && g.ctx.Rng.Intn(2) == 0 {
+		if other := g.otherDoc(attr, long); other != nil {
+			mode := []string{"file-after", "doc-after", "file-after", "doc-after", "file-before", "doc-before", "extends"}[g.ctx.Rng.Intn(7)]
+			if mode == "extends" && (attr == "extends" || strings.HasSuffix(attr, "s.labels")) {
+				mode = "file-after"
+			}
+			g.ctx.Count("pair-merged:" + mode + ":" + attr)
+			g.ctx.Add("c03.shortLong", pairArgs{Attr: attr, Short: short, Long: long, Files: envFiles, Other: other, Mode: mode})
+		}
+	}
+}
+
+func sortedKeys(m map[string]any) []string {
+	ks := make([]string, 0, len(m))
+	for k := range m {
+		ks = append(ks, k)
+	}
+	sort.Strings(ks)
+	return ks
+}
+
+// otherDoc: a second document touching the attribute of the pair: one entry refined in long syntax, one entry added in
+// short or long syntax. nil = no second document for this attribute.
+func (g pairGen) otherDoc(attr string, long map[string]any) map[string]any {
+	r := g.ctx.Rng
+	svc, _ := long["services"].(map[string]any)["s"].(map[string]any)
+	osvc := map[string]any{}
+	top := map[string]any{}
+	under := func(path string, v any) { // "build.args" → {build: {args: v}}
+		parts := strings.Split(path, ".")
+		m := osvc
+		for _, k := range parts[:len(parts)-1] {
+			n := map[string]any{}
+			m[k] = n
+			m = n
+		}
+		m[parts[len(parts)-1]] = v
+	}
+	at := func(path string) any {
+		var v any = svc
+		for _, k := range strings.Split(path, ".") {
+			m, ok := v.(map[string]any)
+			if !ok {
+				return nil
+			}
+			v = m[k]
+		}
+		return v
+	}
+	switch {
+	case attr == "depends_on":
+		names := sortedKeys(svc["depends_on"].(map[string]any))
+		n := names[r.Intn(len(names))]
+		switch r.Intn(4) {
+		case 0:
+			osvc["depends_on"] = map[string]any{n: map[string]any{"condition": "service_healthy", "restart": true}}
+		case 1:
+			osvc["depends_on"] = map[string]any{n: map[string]any{"condition": "service_completed_successfully", "required": false}}
+		case 2:
+			osvc["depends_on"] = []any{"base"}
+		case 3:
+			osvc["depends_on"] = map[string]any{n: map[string]any{"condition": "service_started", "restart": true}, "base": map[string]any{"condition": "service_healthy"}}
+		}
+	case attr == "networks":
+		names := sortedKeys(svc["networks"].(map[string]any))
+		n := names[r.Intn(len(names))]
+		switch r.Intn(3) {
+		case 0:
+			osvc["networks"] = map[string]any{n: map[string]any{"aliases": []any{"al"}}}
+		case 1:
+			osvc["networks"] = map[string]any{n: map[string]any{"priority": 5}}
+		case 2:
+			osvc["networks"] = []any{n}
+		}
+		tn := map[string]any{}
+		for _, k := range names {
+			tn[k] = nil
+		}
+		top["networks"] = tn
+	case strings.HasPrefix(attr, "kv:") && !strings.HasSuffix(attr, "s.labels") || attr == "kv:build.labels" || attr == "kv:deploy.labels":
+		path := attr[3:]
+		m, ok := at(path).(map[string]any)
+		if !ok || len(m) == 0 {
+			return nil
+		}
+		ks := sortedKeys(m)
+		k := ks[r.Intn(len(ks))]
+		var nv any = "ov"
+		switch path {
+		case "extra_hosts":
+			nv = "9.9.9.9"
+		case "build.ssh":
+			nv = "/other"
+		}
+		if r.Intn(2) == 0 {
+			under(path, map[string]any{k: nv})
+		} else {
+			under(path, []any{k + "=" + fmt.Sprint(nv)})
+		}
+		if strings.HasPrefix(path, "build.") {
+			osvc["build"].(map[string]any)["context"] = "."
+		}
+	case attr == "build":
+		osvc["build"] = []any{map[string]any{"dockerfile": "D.x"}, map[string]any{"args": map[string]any{"A": "1"}}, map[string]any{"target": "t"}}[r.Intn(3)]
+	case attr == "volumes":
+		l := svc["volumes"].([]any)
+		t, _ := l[r.Intn(len(l))].(map[string]any)["target"].(string)
+		if t == "" {
+			return nil
+		}
+		osvc["volumes"] = []any{map[string]any{"type": "volume", "source": "ov", "target": t, "read_only": true}}
+	case attr == "ports" || attr == "ports-int":
+		osvc["ports"] = []any{[]any{"9999:9999", map[string]any{"target": 9999, "published": "9999"}, 9999}[r.Intn(3)]}
+	case attr == "secrets" || attr == "configs":
+		osvc[attr] = []any{[]any{map[string]any{"source": "sec1", "target": "/t"}, "sec3"}[r.Intn(2)]}
+	case attr == "devices":
+		osvc["devices"] = []any{[]any{"/dev/z", map[string]any{"source": "/dev/z", "target": "/dev/z", "permissions": "r"}}[r.Intn(2)]}
+	case attr == "env_file":
+		osvc["env_file"] = []any{"b.env", []any{"b.env"}, []any{map[string]any{"path": "b.env", "required": false}}}[r.Intn(3)]
+	case strings.HasPrefix(attr, "string-vs-list:"):
+		k := attr[len("string-vs-list:"):]
+		v := map[string]string{"dns": "1.1.1.1", "dns_search": "other.example", "tmpfs": "/tmp", "env_file": "b.env"}[k]
+		if r.Intn(2) == 0 {
+			osvc[k] = v
+		} else {
+			osvc[k] = []any{v}
+		}
+	case attr == "healthcheck.test":
+		osvc["healthcheck"] = map[string]any{"interval": "5s"}
+	case attr == "extends":
+		osvc["labels"] = map[string]any{"a": "b"}
+	default:
+		return nil
+	}
+	osvc2 := map[string]any{"s": osvc}
+	d := map[string]any{"services": osvc2}
+	for k, v := range top {
+		d[k] = v
+	}
+	return d
 }
 
 func svcWith(k string, v any) map[string]any { return map[string]any{k: v} }
@@ -863,6 +1073,16 @@ func runC03(ctx *core.Ctx) {
 			ctx.Count("canonical-malformed:" + kind)
 			ctx.Add("c03.canonical", map[string]any{"tree": core.EncodeVal(m), "ign": ign})
 		}
+	}
+
+	// 4b. the two-document pipeline at depends_on / networks / build: every pair of spellings (short, long, partial long,
+	// null, malformed) for the first and for the second document
+	for i := 0; i < ctx.Pick(1500, 30000); i++ {
+		attr := []string{"depends_on", "networks", "build"}[i%3]
+		k1, v1 := g.attrDoc(attr)
+		k2, v2 := g.attrDoc(attr)
+		ctx.Count("twodocs:" + attr + ":" + k1 + "+" + k2)
+		ctx.Add("c03.twoDocs", map[string]any{"attr": attr, "doc1": core.EncodeVal(v1), "doc2": core.EncodeVal(v2)})
 	}
 
 	// 5. decoders
